@@ -86,17 +86,13 @@ where
 impl<V: Value> PartialEq for Memory<V> {
     fn eq(&self, other: &Self) -> bool {
         if self.pages == other.pages && self.endian == other.endian {
-            self.backing()
-                .and_then(|self_backing| {
-                    other.backing().map(|other_backing| {
-                        if RC::ptr_eq(&self_backing, &other_backing) {
-                            true
-                        } else {
-                            self_backing == other_backing
-                        }
-                    })
-                })
-                .unwrap_or(false)
+            match (self.backing(), other.backing()) {
+                (Some(self_backing), Some(other_backing)) => {
+                    RC::ptr_eq(&self_backing, &other_backing) || self_backing == other_backing
+                }
+                (None, None) => true,
+                _ => false,
+            }
         } else {
             false
         }
